@@ -13,7 +13,7 @@ import traceback
 sys.path.insert(0, os.path.dirname(os.path.abspath(__file__)))
 from common import TranslateError  # noqa: E402
 
-GENERATORS = ["gen_crc", "gen_policies", "gen_comms", "gen_discovery", "gen_api5"]
+GENERATORS = ["gen_crc", "gen_policies", "gen_comms", "gen_discovery", "gen_api5", "gen_api4"]
 
 
 def main(argv):
